@@ -649,6 +649,8 @@ func runC11(r *Run) {
 
 	// ---- "repeated only once the clock has passed the deadline": the agent's selection predicate is strict
 	r.Borrow("C13", map[string]string{"C13.collect": "C11.strict"})
+	// a transaction object is pooled once and only by its owner: a shared object loses or duplicates retransmissions (shared with C12)
+	r.Borrow("C12", map[string]string{"C12.pool": "C11.pool"})
 
 	// ---- nothing more is written once a transaction ended: shared with C10.reenter
 	re := r.Rule("C11.reenter", "the agent callback calls a handler-invoking agent method only while the transaction is not registered in the client table (otherwise the nested callback retransmits a transaction that is being ended: more than n+1 writes)", 1)
